@@ -89,7 +89,17 @@ fn constant<'tcx>(cx: &Ctx<'tcx>, owner: LocalDefId, c: &ConstOperand<'tcx>) -> 
                 Const::Unevaluated(u, _) => Some(J::s(cx.path(u.def))),
                 _ => None,
             };
-            J::Obj(vec![("ty", J::s(cx.ty_str(t))), ("bits", J::opt(val)), ("unev", J::opt(txt))])
+            // reference to a `static`
+            let stat = match c.const_ {
+                Const::Val(ConstValue::Scalar(rustc_middle::mir::interpret::Scalar::Ptr(ptr, _)), _) => {
+                    match cx.tcx.try_get_global_alloc(ptr.provenance.alloc_id()) {
+                        Some(rustc_middle::mir::interpret::GlobalAlloc::Static(did)) => Some(J::s(cx.path(did))),
+                        _ => None,
+                    }
+                }
+                _ => None,
+            };
+            J::Obj(vec![("ty", J::s(cx.ty_str(t))), ("bits", J::opt(val)), ("unev", J::opt(txt)), ("static", J::opt(stat))])
         }
     }
 }
